@@ -9,6 +9,7 @@ mod c03;
 mod c04;
 mod c06;
 mod c14;
+mod c18;
 mod ids;
 mod programs;
 mod util;
@@ -31,6 +32,7 @@ fn main() {
         "c04" => c04::run(&rest),
         "c06" => c06::run(&rest),
         "c14-attr" => c14::run(&rest),
+        "c18" => c18::run(&rest),
         _ => {
             eprintln!("usage: echo-verif <ids|c04|...> args");
             2
